@@ -16,7 +16,8 @@ from the verdict recomputed from the independently recomputed X (X below / insid
 byte-identical filter text but different view-local variables (or a local shadowing a global), in every order, differ
 from the verdict recomputed from each view's own threshold (systematic corpus family + random draws); a view whose
 (local or global) variable cannot be evaluated while a same-named global / primitive would make the filter true lists
-somebody; by(week|day|year) probes on payments in Jan 1-7 / Dec 25-31 of one year (2020-2026) != strftime re-computation."""
+somebody; by(week|day|year) probes on payments in Jan 1-7 / Dec 25-31 of one year (2020-2026) and on EVERY calendar
+day of 2023 and 2024 (incl. 29 Feb; also 2020, 2028) != strftime re-computation."""
 import ast
 import copy
 import json
@@ -71,8 +72,8 @@ def gen_merchants(rnd):
         for _ in range(k):
             mo = rnd.choice(months)
             y, m = y0 + mo // 12, 1 + mo % 12
-            dmax = DAYS[m - 1]
-            d = rnd.choice([1, 2, 8, 14, 15, 16, 22, 28, dmax, rnd.randint(1, dmax)])
+            dmax = DAYS[m - 1] + (1 if m == 2 and y % 4 == 0 and (y % 100 != 0 or y % 400 == 0) else 0)   # 29 Feb exists
+            d = rnd.choice([1, 2, 8, 14, 15, 16, 22, 28, dmax, dmax, rnd.randint(1, dmax)])
             if yearedge:
                 y = ye_year
                 m, d = rnd.choice([(1, rnd.randint(1, 7)), (12, rnd.randint(25, 31)), (1, rnd.randint(1, 7)), (12, rnd.randint(25, 31)),
@@ -1336,6 +1337,27 @@ def corpus_cases():
         out.append(mk(pv[:6], [{'name': 'NY', 'cat': 'Food', 'sub': '', 'txns': [
             {'d': f'{year}-12-{d:02d}', 'a': 64, 'tags': []} for d in (28, 29, 30, 31)] + [
             {'d': f'{year + 1}-01-{d:02d}', 'a': 64, 'tags': []} for d in (1, 2, 3, 4, 5)]}]))
+    # calendar sweep: every day of a common and a leap year (29 Feb!), paired with the 15th of its month, under
+    # by("day") / by("week") probes; plus the leap days of 2020 / 2028 next to same-week and same-day neighbours
+    import calendar
+    sweep_views = []
+    for fld, ks in (('day', (1, 2)), ('week', (1, 2)), ('month', (1,))):
+        for k in ks:
+            sweep_views.append({'name': f'S{fld}{k}', 'vars': [], 'filter': f'count(sum(by("{fld}"))) == {k}', 'probe': ['groups', fld, k]})
+    sweep_views.append({'name': 'Sb', 'vars': [], 'filter': 'max(count(by("day"))) == 2', 'probe': ['biggest', 'day', 2]})
+    for year in (2023, 2024):
+        for month in range(1, 13):
+            dm = calendar.monthrange(year, month)[1]
+            sms = [{'name': f'D{d:02d}', 'cat': 'Food', 'sub': '', 'txns': [
+                {'d': f'{year}-{month:02d}-15', 'a': 640, 'tags': []}, {'d': f'{year}-{month:02d}-{d:02d}', 'a': 64 * d, 'tags': []}]}
+                for d in range(1, dm + 1)]
+            out.append(mk(sweep_views, sms))
+    for year in (2020, 2024, 2028):
+        lms = [{'name': 'Gym', 'cat': 'Fun', 'sub': '', 'txns': [{'d': f'{year}-02-15', 'a': 2560, 'tags': []}, {'d': f'{year}-02-29', 'a': 3840, 'tags': []}]},
+               {'name': 'Cafe', 'cat': 'Food', 'sub': '', 'txns': [{'d': f'{year}-02-{26 if year == 2024 else 28}', 'a': 640, 'tags': []}, {'d': f'{year}-02-29', 'a': 640, 'tags': []}]},
+               {'name': 'Solo', 'cat': 'Food', 'sub': '', 'txns': [{'d': f'{year}-02-29', 'a': 640, 'tags': []}, {'d': f'{year}-02-29', 'a': 64, 'tags': []},
+                                                                   {'d': f'{year}-03-01', 'a': 64, 'tags': []}]}]
+        out.append(mk(sweep_views, lms))
     return out
 
 
